@@ -331,6 +331,9 @@ def run_impl(sc: dict, sched_seed: int):
     rng = random.Random(sched_seed)
     outcome, c = run_world(build_from(sc), sc["until"], lambda opts: rng.randrange(len(opts)), lazy=sc["lazy"], cache=sc["cache"],
                            max_loop_iterations=sc["max_loop"], rt_factor=sc.get("rt"), rt_strict=bool(sc.get("rt_strict")))
+    if c.deadlock:
+        outcome = "deadlock"
+    c.outcome = outcome
     return outcome, c
 
 
@@ -497,29 +500,52 @@ def features(sc: dict, outcome: str) -> list:
     return f
 
 
-def run_sched_suite(driver, rng: random.Random, n_scenarios: int, n_schedules: int, name: str = "sched", **genkw) -> dict:
+def run_sched_suite(driver, rng: random.Random, n_scenarios: int, n_schedules: int, name: str = "sched", monitor=None,
+                    scenarios=None, **genkw) -> dict:
+    """Correspondence over generated scenarios; `monitor(sc, controller, outcome)` evaluates the property itself on
+    the implementation's trace and returns violations."""
     dis = []
+    vio = []
     hist: Counter = Counter()
     distinct = set()
     traces = 0
     samples = []
-    for k in range(n_scenarios):
-        sc = gen_scenario(rng, **genkw)
+    mon_evals = 0
+    for k in range(n_scenarios if scenarios is None else len(scenarios)):
+        sc = gen_scenario(rng, **genkw) if scenarios is None else normalise(scenarios[k])
+        d7 = nonuniform_cutoff(sc, False)
         for j in range(n_schedules):
             sseed = rng.randrange(10 ** 9)
-            agree, detail, c = compare(driver, sc, sseed)
+            if driver is not None:
+                agree, detail, c = compare(driver, sc, sseed)
+                outcome = detail.get("outcome") or detail.get("impl") or "?"
+            else:
+                outcome, c = run_impl(sc, sseed)
+                agree, detail = True, {"outcome": outcome}
             traces += 1
-            outcome = detail.get("outcome") or detail.get("impl") or "?"
             for ft in set(features(sc, str(outcome))):
                 hist[ft] += 1
+            if d7:
+                hist["class:D7-reentrant-paths"] += 1
             distinct.add((json.dumps(sc, sort_keys=True), tuple(a[0][1:3] for a in c.actions if a[0][0] == "reply")))
             if not agree:
                 dis.append({"suite": name, "scenario": sc, "schedule_seed": sseed, **detail})
             elif len(samples) < 3 and detail.get("actions", 0) > 6:
                 samples.append({"scenario": sc, "schedule_seed": sseed, "actions": detail["actions"], "outcome": outcome})
+            if monitor is not None:
+                real_outcome = getattr(c, "final_outcome", None) or outcome
+                for v in monitor(sc, c, str(impl_outcome(c, detail, outcome))):
+                    mon_evals += 1
+                    v.setdefault("finding", "D7-reentrant-paths" if d7 else None)
+                    vio.append({**v, "scenario": sc, "schedule_seed": sseed})
     return {"suite": name, "cases": traces, "distinct": len(distinct), "branches": dict(hist), "disagreements": dis,
-            "exhaustive": False, "traces": traces, "samples": samples,
-            "rule": (f"{n_scenarios} generated scenarios (2-5 scripted simulators, all three types, group placements, plain/shifted/weak/"
+            "violations": vio, "exhaustive": False, "traces": traces, "samples": samples,
+            "rule": (f"{traces // max(1, n_schedules)} scenarios (2-5 scripted simulators, all three types, group placements, plain/shifted/weak/"
                      f"self connections, initial events, until 2-6, max_loop 2-100, lazy x cache) x {n_schedules} seeded reply schedules under the "
                      "controlled event loop; compared after every released reply: the new step calls (time, sub-step, inputs, max_advance), "
                      "finished simulators and the outcome of run(). distinct = distinct (scenario, reply order) pairs")}
+
+
+def impl_outcome(c, detail, outcome):
+    """The outcome string of the implementation run (not the model's)."""
+    return getattr(c, "outcome", None) or detail.get("impl_outcome") or outcome
